@@ -145,3 +145,42 @@ func VF_C16_Concatenate(na, nb int) {
 	vf.BudgetReset()
 	vf.Reach("end")
 }
+
+// VF_C16_ExtractPointers: keys compared by identity, not by what they point to: a requested pointer that is
+// not a key of the catalog contributes nothing even if it points to an equal value.
+func VF_C16_ExtractPointers(n, _ int) {
+	cells := make([]int, n+1)
+	twins := make([]int, n+1)
+	c := col.Catalog[*int, int](nil).Make()
+	for i := 0; i < n; i++ {
+		cells[i] = vf.Int("c" + itoa(i))
+		twins[i] = cells[i] // a different variable holding an equal value
+		c.SetValue(&cells[i], 10+i)
+	}
+	var req []*int
+	for i := 0; i < n; i++ {
+		req = append(req, &twins[i])
+	}
+	if n > 0 {
+		req = append(req, &cells[n-1])
+	}
+	vf.Budget(40 * listBudget)
+	r := col.Catalog[*int, int](nil).Extract(c, col.List[*int](nil).MakeFromArray(req))
+	vf.BudgetReset()
+	want := 0
+	if n > 0 {
+		want = 1
+	}
+	vf.Assert("look-alike-pointers-are-not-keys", r.GetSize() == want)
+	if n > 0 && r.GetSize() == 1 {
+		a := r.AsArray()[0]
+		vf.Assert("the-real-key-is-extracted", a.GetKey() == &cells[n-1] && a.GetValue() == 10+n-1)
+	}
+	m2 := col.Catalog[*int, int](nil).Make()
+	for i := 0; i < n; i++ {
+		m2.SetValue(&twins[i], 20+i)
+	}
+	mg := col.Catalog[*int, int](nil).Merge(c, m2)
+	vf.Assert("merge-keeps-look-alike-pointers-apart", mg.GetSize() == 2*n)
+	vf.Reach("end")
+}
